@@ -23,8 +23,9 @@ EXTENDS Breaker, Json, IOUtils
 Trace == ndJsonDeserialize(IOEnv.VERIF_TRACE)
 
 VARIABLES l, lost,
-          owe    \* the model has already made the lazy open -> half-open change, the implementation has not yet
-tvars == <<b, call, last, l, lost, owe>>
+          owe,   \* the model has already made the lazy open -> half-open change, the implementation has not yet
+          ahead  \* the other way round: the implementation has made it (say, from a timer at the deadline), the model not yet
+tvars == <<b, call, last, l, lost, owe, ahead>>
 
 SeqToSet(s) == { s[i] : i \in DOMAIN s }
 ObsHooks(r) == [i \in DOMAIN r.hooks |-> <<r.hooks[i][1], r.hooks[i][2]>>]
@@ -34,11 +35,18 @@ NormB(bb, cl) == Lazy(S0(bb, cl)).b            \* the state with the pending laz
 Pending(bb) == bb.st = "open" /\ bb.rem < 0
 LZ == <<"open", "half">>
 \* hooks expected from the implementation in this step: what the model did, preceded by the change it still owed
-ExpHooks(s) == IF owe THEN <<LZ>> \o s.hooks ELSE s.hooks
+\* (WHEN the breaker notices that the back-off is over is not in the statement: lazily at the next call, as today, or
+\*  eagerly from a timer. The hook sequence is the same either way; only the step in which open -> half-open shows
+\*  differs, and one such hook may be owed in either direction.)
+ExpHooks(s) == IF owe THEN <<LZ>> \o s.hooks
+               ELSE IF ahead /\ Len(s.hooks) >= 1 /\ s.hooks[1] = LZ THEN Tail(s.hooks)
+               ELSE s.hooks
 OweAfter(r, s) == Pending(Snap(r.snap)) /\ ~Pending(s.b)
+AheadAfter(r, s) == ~Pending(Snap(r.snap)) /\ Pending(s.b) /\ r.snap.st # "open"
 HooksOK(r, s) ==
    LET e == ExpHooks(s) IN
    IF OweAfter(r, s) THEN Len(e) >= 1 /\ e[1] = LZ /\ ObsHooks(r) = Tail(e)
+   ELSE IF AheadAfter(r, s) /\ ~ahead THEN ObsHooks(r) = e \o <<LZ>>
    ELSE ObsHooks(r) = e
 
 \* clauses of the statement a step can break, from what was observed
@@ -54,14 +62,16 @@ Broken(r, s, pre, precall) ==
                                       \/ o.st = "half" /\ Cardinality({c \in Calls : s.call[c] = "fresh"}) > Cap
           [] n = "C15_Result" -> r.res # s.res
           [] n = "C15_State" -> o.st # m.st
-          [] n = "C15_Counters" -> o.succ # m.succ \/ o.fail # m.fail
+          \* the counters the statement's rules read: consecutive failures while closed (trip rule), consecutive successes
+          \* while half-open (reset rule); the other one is the implementation's business until the next state change clears both
+          [] n = "C15_Counters" -> (m.st = "half" /\ o.succ # m.succ) \/ (m.st = "closed" /\ o.fail # m.fail)
           [] n = "C15_InFlight" -> o.cur < 0 \/ o.cur # r.running \/ o.cur # m.cur
           [] n = "C15_Backoff" -> o.rem # m.rem \/ r.backoffs # s.backoffs
           [] n = "C15_Generation" -> o.gen # m.gen
           [] n = "C15_Hooks" -> ~HooksOK(r, s)
-          [] n = "C15_StaleIsInert" -> r.ev = "end" /\ precall[r.c] = "stale" /\ (o.st # m.st \/ o.succ # m.succ \/ o.fail # m.fail) }
+          [] n = "C15_StaleIsInert" -> r.ev = "end" /\ precall[r.c] = "stale" /\ (o.st # m.st \/ (m.st = "half" /\ o.succ # m.succ) \/ (m.st = "closed" /\ o.fail # m.fail)) }
 
-TInit == /\ b = B0 /\ call = [c \in Calls |-> "idle"] /\ last = [ev |-> "init"] /\ l = 1 /\ lost = FALSE /\ owe = FALSE
+TInit == /\ b = B0 /\ call = [c \in Calls |-> "idle"] /\ last = [ev |-> "init"] /\ l = 1 /\ lost = FALSE /\ owe = FALSE /\ ahead = FALSE
          /\ TLCSet(1, 1)
 
 StepF(r) ==
@@ -80,15 +90,15 @@ TStep ==
    /\ l <= Len(Trace)
    /\ LET r == Trace[l] IN
         IF r.ev = "reset" THEN
-           /\ b' = B0 /\ call' = [c \in Calls |-> "idle"] /\ lost' = FALSE /\ owe' = FALSE
+           /\ b' = B0 /\ call' = [c \in Calls |-> "idle"] /\ lost' = FALSE /\ owe' = FALSE /\ ahead' = FALSE
            /\ IF Snap(B0) = r.snap THEN TRUE ELSE PrintT(<<"VIOL", l, {"C15_InitialState"}>>)
-        ELSE IF lost THEN UNCHANGED <<b, call, lost, owe>>
+        ELSE IF lost THEN UNCHANGED <<b, call, lost, owe, ahead>>
         ELSE IF ~Enabled(r) THEN
            /\ PrintT(<<"VIOL", l, {"HARNESS_EventNotEnabled"}>>)
-           /\ lost' = TRUE /\ UNCHANGED <<b, call, owe>>
+           /\ lost' = TRUE /\ UNCHANGED <<b, call, owe, ahead>>
         ELSE LET s == StepF(r)
                  br == Broken(r, s, b, call)
-             IN /\ b' = s.b /\ call' = s.call /\ owe' = OweAfter(r, s)
+             IN /\ b' = s.b /\ call' = s.call /\ owe' = OweAfter(r, s) /\ ahead' = AheadAfter(r, s)
                 /\ IF br = {} THEN lost' = FALSE ELSE PrintT(<<"VIOL", l, br>>) /\ lost' = TRUE
    /\ last' = [ev |-> "trace"]
    /\ l' = l + 1
